@@ -104,3 +104,14 @@ PROPS["C18"] = dict(
     design_ref="§6 C18",
     scope="all values (unbounded payloads / nesting); wiring: all variants",
 )
+
+PROPS["C15"] = dict(
+    groups=["take"],
+    lean_props=["SeaQ.Props.C15"],
+    lean_obligations=[],
+    technique="Lean 4: record model of take()/clear()/clone over per-struct field-action tables regenerated from the source (every struct with a take(); the clear/reset bodies); table predicates (every field listed once with a value-preserving action, no `..` rest, all moves for query statements, each clearer empties exactly its field) decided by the kernel and lifted to all states by parametric lemmas; random builder histories with take/clone/clear inserted at every position on the real crate",
+    level_text="Machine-checked: for every struct with a take(), if the regenerated table says every declared field is listed exactly once with a value-preserving expression (move / copy / clone / replace) and there is no struct-update rest, then the taken statement equals the statement before the call in every field for every state; for the query statements (SelectStatement, WindowStatement) all actions are moves that leave the Default value, and new() is Default, so what is left equals a new statement; each clear/reset function empties exactly its documented field and its body does nothing else. The table predicates are decided on the source as it is now.",
+    level_note="Trusted: Lean kernel; translator (struct fields, take() struct literal, clear bodies); Rust semantics of Option::take / mem::take / mem::replace / Copy / Clone; derive(Clone, PartialEq) being field-wise and SeaRc<dyn Iden> cloning by pointer with no mutating API (clone independence is by value semantics; checked dynamically). Rendering equality, == and independence are checked on the real crate over random histories (per-field coverage counted in the evidence); schema statements have no PartialEq, their equality is Debug text plus renderings.",
+    design_ref="§6 C15",
+    scope="all states x all call positions (parametric); tables: all 12 structs with take(), 8 clearers",
+)
